@@ -127,7 +127,8 @@ def respViolation (me : Self) (evs : List Ev) (client : Addr) (qs : List Questio
     if r.rcode == rcodeNameError then
       if !r.answers.isEmpty then some "nxdomain-with-answers"
       else match qs.find? (fun q => known me evs q.name) with
-        | some q => if q.qtype == typeA || q.qtype == typeAAAA then some "nxdomain-for-known-name"
+        | some q => if qs.length > 1 then some "nxdomain-for-known-name-multi-question"
+                    else if q.qtype == typeA || q.qtype == typeAAAA then some "nxdomain-for-known-name"
                     else some "nxdomain-for-known-name-other-type"
         | none => none
     else if r.rcode == rcodeSuccess then none
